@@ -6,6 +6,9 @@
 package interceptor_test
 
 import (
+	"os"
+	"net"
+	"context"
 	"bytes"
 	"encoding/json"
 	"errors"
@@ -95,7 +98,18 @@ type uScript struct {
 	HLen    int       `json:"hlen"`   // re-bind: number of first-life steps on rs
 }
 
-var errUInner = errors.New("verif: injected transport failure")
+// uInnerErr is the failure the transport side injects.  A real transport fails with well-known values (a closed pipe, a
+// closed connection, end of stream, an elapsed deadline); code that singles one of them out must still honour what it
+// promises, so the injected failure answers errors.Is for all of them.
+type uInnerErr struct{}
+
+func (uInnerErr) Error() string { return "verif: injected transport failure" }
+func (uInnerErr) Is(target error) bool {
+	return target == io.ErrClosedPipe || target == io.EOF || target == io.ErrUnexpectedEOF || target == net.ErrClosed || //nolint:errorlint
+		target == os.ErrDeadlineExceeded || target == context.Canceled || target == context.DeadlineExceeded //nolint:errorlint
+}
+
+var errUInner error = uInnerErr{} //nolint:gochecknoglobals
 
 type uProbe struct {
 	interceptor.NoOp
